@@ -65,6 +65,24 @@ def find_counterexample(pid, unit, failure, seed):
     return dict(confirmed_on_real_code=False, note='directed concrete search: %d scenario(s) tried against the real code, none failed' % tried)
 
 
+def run_all_probes(pid, seed):
+    """Thorough tier: the whole probe catalogue of the property is replayed against the real code (conformance run of the
+    assumed contracts A9/A10/A11 and of the extraction).  Returns (n_run, [reproduced...])."""
+    if not build_replay():
+        return 0, [dict(scenario=None, output='replay binary could not be built: ' + _built.get('log', '')[-300:], infra=True)]
+    n = 0
+    bad = []
+    for sc in probes_for(pid, '*'):
+        sc = dict(sc)
+        if sc.get('kind') == 'truncation_sweep':
+            sc['seed'] = seed
+        n += 1
+        rc, out = run_scenario(sc, timeout=300)
+        if rc == 1:
+            bad.append(dict(scenario=sc, output=out[:1500]))
+    return n, bad
+
+
 def thorough(pid, units, seed):
     try:
         import vkani
